@@ -138,6 +138,7 @@ pub fn builder_text(bb: &BoardBuilder) -> String {
 }
 
 pub struct Cfg {
+    pub gen_play_none: bool,
     pub gen_play_all: bool,
     pub gen_play_pawns: bool,
     pub starts_only: bool,
@@ -947,7 +948,7 @@ impl<'a> Driver<'a> {
         let king = b.king(b.side_to_move());
         let mut api = 0;
         for m in legal_moves(&b) {
-            let wanted = self.cfg.gen_play_all || m.from == king || (self.cfg.gen_play_pawns && b.piece_on(m.from) == Some(Piece::Pawn));
+            let wanted = !self.cfg.gen_play_none && (self.cfg.gen_play_all || m.from == king || (self.cfg.gen_play_pawns && b.piece_on(m.from) == Some(Piece::Pawn)));
             if !wanted {
                 continue;
             }
@@ -1034,7 +1035,7 @@ pub fn run(args: &Args) {
     let roots = Roots::load();
     let mut sh = Shards::new(out, shards);
     {
-        let cfg = Cfg { gen_play_all: args.get("gen-play") == Some("all"), gen_play_pawns: args.get("gen-play") == Some("pawnking"), starts_only: args.get("root-mix") == Some("starts"), obs: args.list("obs").into_iter().collect(), plies: args.num("plies", 24), heavy_every: args.num("heavy-every", 1) };
+        let cfg = Cfg { gen_play_none: args.get("gen-play") == Some("none"), gen_play_all: args.get("gen-play") == Some("all"), gen_play_pawns: args.get("gen-play") == Some("pawnking"), starts_only: args.get("root-mix") == Some("starts"), obs: args.list("obs").into_iter().collect(), plies: args.num("plies", 24), heavy_every: args.num("heavy-every", 1) };
         let mut d = Driver { out: &mut sh, rng: Rng::new(seed), cfg, roots: &roots, all_moves: all_move_values(), states: 0 };
         // subtrees below curated roots: every (position, move) pair near the roots
         let sub = args.num("subtrees", 0);
